@@ -47,6 +47,12 @@ def step (d : D) (line : String) : D × String :=
       match ws with
       | ["select", i] => upd (Iscp.Multi.step s (.select (i.toNat?.getD 0)))
       | ["write", h] => (match bytesOfHex h with | some b => upd (write s b) | none => (d, "bad-op"))
+      | ["burstselect", l] =>
+        -- the write parked before the burst goes to the member current at that moment; then every event is applied in order
+        let (s1, o) := write s [119]
+        let s2 := (parseIds l).foldl select s1
+        ({ d with s := some s2 }, showOut o)
+      | ["closeerr", _] => (d, "ok")
       | ["asun"] => (d, showOut (deref s))
       | ["np"] => (d, showOut (deref s))
       | ["mread", m, h] => (match bytesOfHex h with
